@@ -498,4 +498,124 @@ def cleanRequest (s : Bytes) : Bool :=
         | .error _ => false
         | .ok (fs, r') => cleanFields fs && cleanBody (valuesOf fs lTE) r'
 
+/-! ### the same reader fed by SEGMENTS
+
+  The connection hands the `bfe_bufio.Reader` its bytes in arbitrary pieces.  Reader state `RS`: (unread bytes already
+  buffered, pieces still to come; `[]` = EOF).  Every primitive of the request reader is restated on that state:
+  `ReadLine` fills until the LF is buffered, `skipSpace` reads byte by byte across pieces, the look-ahead of
+  `readContinuedLineSlice` sees the first byte that will ever arrive, `Peek(n)` / body reads fill as needed.
+  The parsers `readHeaderS`, `readRequestHeadS`, `readBodyS` are the ones above with these primitives. -/
+
+abbrev RS := Bytes × List Bytes
+
+def norm (x : RS) : Bytes := x.1 ++ x.2.flatten
+
+def readLineS : Bytes → List Bytes → Option (Bytes × RS)
+  | buf, [] => (readLine buf).map (fun p => (p.1, (p.2, [])))
+  | buf, g :: rest =>
+    match splitLF buf with
+    | some (l, r) => some (dropLastCR l, (r, g :: rest))
+    | none => readLineS (buf ++ g) rest
+
+/-- the first byte that will be read (Peek / ReadByte), `none` at EOF -/
+def headS : Bytes → List Bytes → Option UInt8
+  | b :: _, _ => some b
+  | [], [] => none
+  | [], g :: rest => headS g rest
+
+/-- skipSpace -/
+def skipS : Bytes → List Bytes → RS
+  | buf, [] => (buf.dropWhile isSPHT, [])
+  | buf, g :: rest =>
+    match buf.dropWhile isSPHT with
+    | [] => skipS g rest
+    | b :: t => (b :: t, g :: rest)
+
+def contLoopS : Nat → Bytes → RS → Bytes × RS
+  | 0, acc, x => (acc, x)
+  | f + 1, acc, x =>
+    match headS x.1 x.2 with
+    | none => (acc, x)
+    | some b =>
+      if isSPHT b then
+        let x' := skipS x.1 x.2
+        match readLineS x'.1 x'.2 with
+        | none => (acc, x')
+        | some (line, r) => contLoopS f (acc ++ [32] ++ trim line) r
+      else (acc, x)
+
+def readContinuedS (x : RS) : Option (Bytes × RS) :=
+  match readLineS x.1 x.2 with
+  | none => none
+  | some (line, r) =>
+    if line.length = 0 then some ([], r)
+    else some (contLoopS ((norm r).length + 1) (trim line) r)
+
+def readHeaderS : Nat → RS → Option (List Field × RS)
+  | 0, _ => none
+  | f + 1, x =>
+    match readContinuedS x with
+    | none => none
+    | some (kv, r) =>
+      if kv.length = 0 then some ([], r)
+      else
+        match splitAt1 58 kv with
+        | none => none
+        | some (k, v) =>
+          let key := canonKey k
+          match readHeaderS f r with
+          | none => none
+          | some (fs, r') =>
+            if key.length = 0 then some (fs, r') else some (⟨key, v.dropWhile isSPHT⟩ :: fs, r')
+
+def readTrailerS (x : RS) : Option RS :=
+  let pk := (C23.takeSeg 2 x.1 x.2).1                    -- Peek(2)
+  match pk with
+  | [a, b] =>
+    if a.toNat = 13 ∧ b.toNat = 10 then some (C23.takeSeg 2 x.1 x.2).2
+    else if ¬ hasDoubleCRLF (C23.takeSeg 4096 x.1 x.2).1 then none
+    else (readHeaderS ((norm x).length + 1) x).map (·.2)
+  | _ => none
+
+def readRequestHeadS (x : RS) : Option (Req × RS) :=
+  match readLineS x.1 x.2 with
+  | none => none
+  | some (line, r) =>
+    match splitAt1 32 line with
+    | none => none
+    | some (m, rest1) =>
+      match splitAt1 32 rest1 with
+      | none => none
+      | some (t, p) =>
+        match parseVersion p with
+        | none => none
+        | some _ =>
+          if uriClass t ≠ .accept then none
+          else match readHeaderS ((norm r).length + 1) r with
+            | none => none
+            | some (fs, r') =>
+              match framing fs with
+              | none => none
+              | some fr => some (⟨m, t, p, fs.map (·.name), fr⟩, r')
+
+def readBodyS (fr : Framing) (x : RS) : Bytes × Option RS :=
+  match fr with
+  | .length n =>
+    let d := C23.takeSeg n x.1 x.2
+    if d.1.length < n then (d.1, none) else (d.1, some d.2)
+  | .chunked =>
+    let d := C23.decodeSegS x.1 x.2
+    if d.err = .eof then (d.body, readTrailerS (d.buf, d.segs)) else (d.body, none)
+
+/-- one request (head and body) from a connection that delivers `segs`; and from a whole stream -/
+def parseOneS (segs : List Bytes) : Option (Req × Bytes × Option Bytes) :=
+  match readRequestHeadS ([], segs) with
+  | none => none
+  | some (q, x) => some (q, (readBodyS q.framing x).1, (readBodyS q.framing x).2.map norm)
+
+def parseOne (s : Bytes) : Option (Req × Bytes × Option Bytes) :=
+  match readRequestHead s with
+  | none => none
+  | some (q, r) => some (q, (readBody q.framing r).1, (readBody q.framing r).2)
+
 end BfeVerif.C24
